@@ -94,7 +94,7 @@ func genAll(P *Program, only string) ([]*VC, []string) {
 // closure computes, per property, the functions whose helper obligations
 // belong to it: functions with a clause tagged by the property and everything
 // they call (transitively) that is under contract.
-func propClosure(P *Program, prop string) map[string]bool {
+func propClosure(P *Program, prop string) (map[string]bool, map[string]bool) {
 	roots := map[string]bool{}
 	for k, fc := range P.contracts.Funcs {
 		if fc.Extern {
@@ -166,30 +166,39 @@ func propClosure(P *Program, prop string) map[string]bool {
 	for k := range roots {
 		visit(k)
 	}
-	return seen
+	return seen, roots
 }
 
-func obligationInProp(ob *Obligation, prop string, closure map[string]bool, fkey string) bool {
-	if !closure[fkey] {
-		// explicitly tagged obligations still count
-		for _, p := range ob.Props {
-			if p == prop {
-				return true
-			}
+func obligationInProp(ob *Obligation, prop string, closure map[string]bool, roots map[string]bool, fkey string) bool {
+	for _, p := range ob.Props {
+		if p == prop {
+			return true
 		}
+	}
+	if !closure[fkey] {
 		return false
+	}
+	if ob.Class == "safe" || ob.Class == "dec" {
+		return false // panic-freedom and termination are C03's (tagged above)
+	}
+	if ob.Class == "frame" {
+		return false // frames are C14's (tagged above)
 	}
 	if len(ob.Props) == 0 {
 		return true
 	}
 	for _, p := range ob.Props {
-		if p == prop || p == "*" {
+		if p == "*" {
 			return true
 		}
 	}
-	// helper obligations of functions in the closure also carry the property
-	// when they are not safety-only
+	// helper obligations of functions in the closure
 	if ob.Class == "inv-init" || ob.Class == "inv-pres" || ob.Class == "pre" {
+		return true
+	}
+	// a function that is in the closure only because something calls it: the
+	// caller's proof may rest on any of its postconditions
+	if !roots[fkey] && ob.Class == "post" {
 		return true
 	}
 	return false
@@ -221,13 +230,13 @@ func cmdCheck(args []string) int {
 	vcs, errs := genAll(P, *only)
 	lemObs, lerrs := genLemmas(P, *prop)
 	errs = append(errs, lerrs...)
-	closure := propClosure(P, *prop)
+	closure, roots := propClosure(P, *prop)
 	var obs []*Obligation
 	funcsUnder := map[string]int{}
 	for _, vc := range vcs {
 		k := P.funcKey(vc.fn)
 		for _, ob := range vc.obs {
-			if *prop == "" || obligationInProp(ob, *prop, closure, k) {
+			if *prop == "" || obligationInProp(ob, *prop, closure, roots, k) {
 				obs = append(obs, ob)
 				funcsUnder[vc.fn.RelString(vc.fn.Pkg.Pkg)]++
 			}
@@ -277,7 +286,7 @@ func cmdCheck(args []string) int {
 	}
 	for _, ob := range obs {
 		for _, k := range known {
-			if k.Status == "open" && k.Property == *prop && k.Obligation == ob.Name {
+			if k.Status == "open" && (k.Property == *prop || k.Property == "*") && k.Obligation == ob.Name {
 				ob.ShortLimit = true // expected to stay undischarged
 			}
 		}
@@ -309,7 +318,7 @@ func cmdCheck(args []string) int {
 	for _, r := range failed {
 		isKnown := false
 		for _, k := range known {
-			if k.Status == "open" && k.Property == *prop && k.Obligation == r.Ob.Name {
+			if k.Status == "open" && (k.Property == *prop || k.Property == "*") && k.Obligation == r.Ob.Name {
 				fmt.Printf("KNOWN-FINDING: property=%s %s (%s; input: %s)\n", *prop, r.Ob.Name, k.What, k.Input)
 				isKnown = true
 				knownHit++
